@@ -6,6 +6,7 @@ with that model (Midi/Proofs/Gen*.lean), so a change to the source file that alt
 even where no test input exposes it.
 -/
 import Midi.Proofs.GenPoll
+import Midi.Proofs.PollRelabelRun
 import Midi.Props.C12
 import Midi.Props.C13
 import Midi.Props.C14
@@ -108,5 +109,25 @@ theorem isolation (c : Nat) (hc : c < 16) (now timeout : Nat) (ops : List TOp) (
   refine ⟨gscanner (PScanner.new timeout), n1, gscanner s1, o1, n2, gscanner s2, o2, new timeout, ?_, ?_, h4⟩
   · rw [grun_eq, scanner_new, h1]; rfl
   · rw [grun_eq, scanner_new, h2]; rfl
+
+/-- C14, data independence, for the translated polling scanner as a whole: under ANY interleaving of valid feeds on
+    all 16 channels, polls, resets and time steps, relabelling the value byte of every Control Change by any `f`
+    (into 0..127) never makes it panic and, on every channel, the results of the relabelled run are the
+    `relabelMsg f`-images of the results of the original per-channel run, call by call. -/
+theorem data_independent (f : Nat → Nat) (hf : ∀ v, v < 128 → f v < 128)
+    (c : Nat) (hc : c < 16) (now timeout : Nat) (ops : List TOp) (hv : ∀ op ∈ ops, op.Valid) :
+    ∃ s0 now' s' outs, PollScan.PollingParameterNumberMessageScanner.new timeout = .ok s0 ∧
+      grun now s0 (ops.map (relabelTOp f)) = .ok (outs, (now', s')) ∧
+      outputsOn c now (ops.map (relabelTOp f)) outs
+        = ((({ timeout := timeout } : PChan).evs c (project c now ops)).2).map (relabelPOut f) := by
+  obtain ⟨s0, now', s', outs, h0, h1, _, h3⟩ := run_is_channelwise c hc now timeout _ (relabelTOp_valid f hf ops hv)
+  refine ⟨s0, now', s', outs, h0, h1, ?_⟩
+  rw [h3, project_relabel f c hc]
+  have hd := C14.data_independent f hf c (project c now ops) (projectEv_valid c now ops hv) ({ timeout := timeout } : PChan)
+    (by simp [PState.default, PState.Bytes7])
+  have hr : (({ timeout := timeout } : PChan).relabel f) = { timeout := timeout } := by
+    simp [PChan.relabel, PState.default, PState.relabel]
+  rw [hr] at hd
+  rw [hd]
 
 end Midi.Props.TPoll
